@@ -351,10 +351,11 @@ impl<'t> Gen<'t> {
         let kind = self.t.weighted(&[4, 3, 3, 2, 2, 2]);
         let less = |a: Num, b: Num| a.as_f64() < b.as_f64() || matches!((a, b), (Num::Int(x), Num::Int(y)) if x < y);
         match kind {
-            0 => CountSpec::Exact {
-                v: self.num(ty, near),
-                as_number: self.t.coin(),
-            },
+            0 => {
+                // on float ranges a third of the exact counts are whole numbers written as integer tokens (`-1`, `"7"`)
+                let v = if ty.is_float() && self.t.chance(1, 3) { Num::Int(self.t.range(0, 40) as i128 - 20) } else { self.num(ty, near) };
+                CountSpec::Exact { v, as_number: self.t.coin() }
+            }
             1 | 2 => {
                 // a..b / a..=b
                 let a = self.num(ty, near);
@@ -1054,6 +1055,10 @@ impl<'t> Gen<'t> {
                             // decimal literal: the fraction digits matter for the plural category
                             let f = *self.t.choose(&[1.5, 0.5, 1.1, 2.5, 0.1, 10.5, 1.25, 100.75, 1.0, 2.0, 0.0, 21.5, 3.5]);
                             args.push(("count".into(), Arg::F(f)));
+                        } else if self.t.chance(1, 6) {
+                            // integers that an f64 cannot hold digit for digit (the category must come from the exact integer)
+                            let big: i64 = *self.t.choose(&[9007199254741001, 9223372036854775801, 4503599627370497, 1000000000000000021, 9007199254740993, 100000000000000011, -9007199254741001, -1000000000000000002]);
+                            args.push(("count".into(), if big < 0 { Arg::I(big) } else { Arg::U(big as u64) }));
                         } else {
                             let v = self.t.range(0, 120) as u64;
                             args.push(("count".into(), Arg::U(v)));
@@ -1106,6 +1111,61 @@ impl NameSrc {
 // C03: the enumerated 4-locale domain as one project per inherits map
 
 pub const C03_LOCALES: [&str; 4] = ["en", "fr", "de", "es"];
+
+/// C06 on the enumerated 4-locale domain: the C03 project of an inherits map (every presence pattern of
+/// every key kind) plus, per presence pattern, keys that *reference* those targets: plain, with a string
+/// argument, through a subkey path, a range with a literal and with a run-time count, a plural with a
+/// literal count, a reference to a reference, and a reference key that is itself `null` in two locales.
+/// A locale in which the target is absent does not write the reference (then the reference key is
+/// defaulted there like any other key).
+pub fn c06_project_for_map(map: [usize; 3]) -> Project {
+    let mut p = c03_project_for_map(map);
+    fn fk(path: &[&str], args: Vec<(String, Arg)>) -> Piece {
+        Piece::Fk(Fk {
+            ns: None,
+            path: path.iter().map(|s| s.to_string()).collect(),
+            args,
+            ws: [String::new(), String::new(), String::new(), String::new()],
+        })
+    }
+    fn t(s: &str) -> Piece {
+        Piece::Text(s.to_string())
+    }
+    for (li, loc) in C03_LOCALES.iter().enumerate() {
+        let obj = p.files.get_mut(&(None, loc.to_string())).unwrap();
+        for pr in 0..27usize {
+            let presence = [pr % 3, (pr / 3) % 3, pr / 9];
+            let pres = if li == 0 { 0 } else { presence[li - 1] };
+            if pres == 2 {
+                continue;
+            }
+            let k0 = format!("p{pr}_k0");
+            let k1 = format!("p{pr}_k1");
+            let k2 = format!("p{pr}_k2");
+            let k3 = format!("p{pr}_k3");
+            let gl = format!("gl{pr}");
+            let ra = format!("ra{pr}");
+            obj.push((ra.clone(), Value::Str(vec![t(&format!("ra@{loc}<")), fk(&[&k0], vec![]), t(">")])));
+            obj.push((
+                format!("rb{pr}"),
+                Value::Str(vec![fk(&[&k1], vec![("name".to_string(), Arg::Str(vec![t(&format!("N@{loc}"))]))]), t(&format!(".rb@{loc}"))]),
+            ));
+            obj.push((format!("rc{pr}"), Value::Str(vec![t(&format!("rc@{loc} ")), fk(&[&gl, "leaf"], vec![])])));
+            obj.push((format!("rd{pr}"), Value::Str(vec![fk(&[&k2], vec![("count".to_string(), Arg::U(0))]), t(&format!(" rd@{loc}"))])));
+            obj.push((format!("re{pr}"), Value::Str(vec![t(&format!("re@{loc} ")), fk(&[&k2], vec![])])));
+            obj.push((format!("rf{pr}"), Value::Str(vec![t(&format!("rf@{loc} ")), fk(&[&k3], vec![("count".to_string(), Arg::U(1))])])));
+            obj.push((format!("rr{pr}"), Value::Str(vec![t("["), fk(&[&ra], vec![]), t(&format!("]rr@{loc}"))])));
+            // the reference key itself is null in the second and the fourth locale
+            let rn = format!("rn{pr}");
+            if li == 1 || li == 3 {
+                obj.push((rn, Value::Null));
+            } else {
+                obj.push((rn, Value::Str(vec![t(&format!("rn@{loc}:")), fk(&[&k0], vec![])])));
+            }
+        }
+    }
+    p
+}
 
 /// One project for the inherits map `map` (entry i: locale i+1 inherits 0 = nothing, 1..=4 = that
 /// locale incl. itself): for each of the 27 presence patterns {defined, null, absent}^3 and each of
